@@ -132,6 +132,10 @@ UNITS = {
         'template': 'cli_wiring.vrs', 'backend': 'verus',
         'serves': ['C15'],
     },
+    'pyglue': {
+        'template': 'pyglue.vrs', 'backend': 'verus',
+        'serves': ['C13'],
+    },
     'n2k': {
         'template': 'n2k.vrs', 'backend': 'verus',
         'serves': ['C02', 'C03'],
@@ -273,7 +277,7 @@ PROPS = {
         'not_reached': ['OligoCgrComputer::new wiring (tables -> struct fields)', 'text rendering "({},{},{})" and file writing', 'thread independence rests on rayon collect order (assumed)'],
     },
     'C13': {
-        'units': ['oligo_vec', 'header', 'cgr'], 'deps': ['kmer_gen', 'posmaps', 'n2k', 'minimiser'], 'replay': None,
+        'units': ['oligo_vec', 'header', 'cgr', 'pyglue'], 'deps': ['kmer_gen', 'posmaps', 'n2k', 'minimiser'], 'replay': None,
         'level_text': 'Narrow claim. The loops that the Python binding duplicates from the core (OligoComputer::vectorise_one, get_header, CgrComputer::vectorise_one in pybindings/src) are extracted and proved against the SAME '
                       'postconditions as the core functions (C04, C03, C11) over the UTF-8 bytes of the string, so core and binding compute the same row / header / points; non-ASCII characters are bytes >= 0x80, '
                       'which the spec treats as ambiguous / non-nucleotide bytes. The iterator wrappers __next__/to_acgt are single delegating calls to the functions verified under C01/C02/C09.',
